@@ -4,11 +4,11 @@ package interp
 // condition mirrored in one persistent solver process (push/pop), obligations.
 
 import (
-	"strconv"
 	"fmt"
 	"math/big"
 	"os"
 	"sort"
+	"strconv"
 	"strings"
 	"time"
 
@@ -56,19 +56,19 @@ const (
 
 // ObligationResult accumulates over all paths of a task.
 type ObligationResult struct {
-	ID        string
-	Paths     int // paths on which the assertion was reached
-	Unsat     int
-	Sat       int
-	Unknown   int
-	KnownSat  int // failures attributed to a listed known finding
-	KnownUndecided int // solver unknown inside the region of a listed finding (not claimed there)
+	ID                                      string
+	Paths                                   int // paths on which the assertion was reached
+	Unsat                                   int
+	Sat                                     int
+	Unknown                                 int
+	KnownSat                                int // failures attributed to a listed known finding
+	KnownUndecided                          int // solver unknown inside the region of a listed finding (not claimed there)
 	AbstractSat, ExactRefuted, AbstractOnly int
-	LongTries int
-	Trivial   int // assertion was a concrete `true`
-	Witnesses []*Witness
-	SolverMS  int64
-	Arith     string
+	LongTries                               int
+	Trivial                                 int // assertion was a concrete `true`
+	Witnesses                               []*Witness
+	SolverMS                                int64
+	Arith                                   string
 }
 
 type Witness struct {
@@ -118,51 +118,51 @@ type Engine struct {
 	fresh int
 
 	// results
-	Obl         map[string]*ObligationResult
-	Reached     map[string]int
-	ReachWit    map[string]*Witness
-	Paths       int
-	Branches    int
-	Aborted     map[string]int // reason -> count  (unsupported, budget)
-	Incomplete  []string
-	Samples     []PathSummary
-	Funcs       map[string]int64 // function -> instructions executed
-	StubsHit    map[string]int
-	steps       int64
-	Expect      map[string]string
-	choiceNames []string
-	choiceVals  map[string]int
-	Panics      int
-	NondetSites map[string]int
-	Notes       []string
-	known       []KnownRegion
-	KnownHits   map[string]int
-	KnownWit    map[string]*Witness
-	tags        []string
-	traceCalls  bool
-	reachTries  map[string]int
-	crossDone   map[string]int
-	Cross       map[string]int
-	facts       map[*smt.Term]bool
-	intTerms    []*smt.Term // ideal mode: real-sorted terms known to be integer-valued
-	truncOf     map[*smt.Term]*smt.Term // ideal mode: truncation is a function (same argument, same result)
-	knownTries  map[string]int
-	autoHints   []*smt.Term // per path: rate-like inputs fixed to simple values (concrete-witness search only)
-	autoNames   map[string]bool
-	intVars     []*smt.Term // ideal mode: the real-sorted variables standing for integer inputs (nd.IntRange)
-	exactNext   bool
-	hints       []*smt.Term
-	Probe       bool // probing run: no solver-backed obligations
-	snap        interface{}
-	snapCells   map[*ssa.Global]*value
-	Forced      []int // forced alternatives for the leading pure choices (task splitting)
+	Obl            map[string]*ObligationResult
+	Reached        map[string]int
+	ReachWit       map[string]*Witness
+	Paths          int
+	Branches       int
+	Aborted        map[string]int // reason -> count  (unsupported, budget)
+	Incomplete     []string
+	Samples        []PathSummary
+	Funcs          map[string]int64 // function -> instructions executed
+	StubsHit       map[string]int
+	steps          int64
+	Expect         map[string]string
+	choiceNames    []string
+	choiceVals     map[string]int
+	Panics         int
+	NondetSites    map[string]int
+	Notes          []string
+	known          []KnownRegion
+	KnownHits      map[string]int
+	KnownWit       map[string]*Witness
+	tags           []string
+	traceCalls     bool
+	reachTries     map[string]int
+	crossDone      map[string]int
+	Cross          map[string]int
+	facts          map[*smt.Term]bool
+	intTerms       []*smt.Term             // ideal mode: real-sorted terms known to be integer-valued
+	truncOf        map[*smt.Term]*smt.Term // ideal mode: truncation is a function (same argument, same result)
+	knownTries     map[string]int
+	autoHints      []*smt.Term // per path: rate-like inputs fixed to simple values (concrete-witness search only)
+	autoNames      map[string]bool
+	intVars        []*smt.Term // ideal mode: the real-sorted variables standing for integer inputs (nd.IntRange)
+	exactNext      bool
+	hints          []*smt.Term
+	Probe          bool // probing run: no solver-backed obligations
+	snap           interface{}
+	snapCells      map[*ssa.Global]*value
+	Forced         []int // forced alternatives for the leading pure choices (task splitting)
 	OverflowChecks bool
-	SymMapOrder bool // C19: iteration order of maps in repository code is a symbolic permutation
-	Thorough    bool
-	Events      int
-	Ranges      map[string]rangeDecl
-	obsKeys     []string
-	obsTerms    map[string]*smt.Term
+	SymMapOrder    bool // C19: iteration order of maps in repository code is a symbolic permutation
+	Thorough       bool
+	Events         int
+	Ranges         map[string]rangeDecl
+	obsKeys        []string
+	obsTerms       map[string]*smt.Term
 }
 
 // KnownRegion: a listed known finding. When an obligation fails and the failing
@@ -628,7 +628,7 @@ func (e *Engine) exactQuery(extra *smt.Term, to time.Duration) smt.Result {
 	// push/pop z3 applies its full preprocessing and nonlinear tactics, which decides
 	// many queries the incremental core leaves unknown.
 	run := func(mode int) smt.Result { // 0: no hints, 1: harness hints, 2: harness hints + automatic regime
-		withHints := mode >= 1
+		withHints := mode == 1 || mode == 2 // 3: automatic regime alone
 		if e.SX != nil {
 			e.SX.Close()
 			e.SX = nil
@@ -655,7 +655,7 @@ func (e *Engine) exactQuery(extra *smt.Term, to time.Duration) smt.Result {
 				sx.Assert(h)
 			}
 		}
-		if mode == 2 {
+		if mode == 2 || mode == 3 {
 			for _, h := range e.autoHints {
 				sx.Assert(h)
 			}
@@ -673,20 +673,26 @@ func (e *Engine) exactQuery(extra *smt.Term, to time.Duration) smt.Result {
 		}
 		return r
 	}
-	// first look for a model inside the regime suggested by the harness (nd.Hint) with the rate-like
-	// inputs fixed to simple values, then inside the harness regime alone: hints only ever narrow
-	// the search for a concrete counterexample, `unsat` under hints means nothing
-	if len(e.autoHints) > 0 {
-		if run(2) == smt.Sat {
-			return smt.Sat
-		}
+	// the plain query first: it is the only one that can refute (unsat), which is what almost every
+	// candidate on an unchanged tree needs. If it stays undecided, look for a model inside narrower
+	// regimes - the harness hints (nd.Hint) with the rate-like inputs fixed to simple values, the
+	// harness hints alone, the automatic regime alone (the two may contradict each other). Hints only
+	// ever narrow the search for a concrete counterexample: `unsat` under hints means nothing.
+	if r := run(0); r != smt.Unknown {
+		return r
+	}
+	if len(e.autoHints) > 0 && run(2) == smt.Sat {
+		return smt.Sat
 	}
 	if len(e.hints) > 0 {
 		if run(1) == smt.Sat {
 			return smt.Sat
 		}
+		if len(e.autoHints) > 0 && run(3) == smt.Sat {
+			return smt.Sat
+		}
 	}
-	return run(0)
+	return smt.Unknown
 }
 
 // CrossCmds: additional solvers that re-decide a sample of the discharged obligation queries
